@@ -53,7 +53,7 @@ def presence_case(p):
 
 def cas_match_case(p):
     """'=' / '!=' / '-' : outcome of the comparison stored.cas vs request cas on this path"""
-    for c, truth, _s in p.state.pc:
+    for c, truth, _s, _at in p.state.pc:
         if isinstance(c, tuple) and c and c[0] == "cmp" and c[1] in ("Eq", "Ne"):
             a, b = c[2], c[3]
             sides = [a, b]
